@@ -41,7 +41,22 @@ Raw(d)      == [t |-> "raw", a |-> "", d |-> d]
 WrapExec(x) == IF x.t = "none" THEN NoData ELSE [t |-> "exec", a |-> "", d |-> x.d]
 WrapInst(addr, x) == [t |-> "inst", a |-> addr, d |-> x.d]
 
-NoReply == [id |-> 0, payload |-> "", ok |-> FALSE, ev |-> <<>>, data |-> NoData, is |-> FALSE]
+NoReply == [id |-> 0, payload |-> "", ok |-> FALSE, ev |-> <<>>, data |-> NoData, is |-> FALSE, url |-> ""]
+
+(* the type URL of the single msg_response delivered in a successful Reply (response_type_url) *)
+TypeUrl(m) ==
+    CASE m.k = "bank_send" -> "/cosmos.bank.v1beta1.MsgSendResponse"
+      [] m.k = "bank_burn" -> "/cosmos.bank.v1beta1.MsgBurnResponse"
+      [] m.k = "exec" -> "/cosmwasm.wasm.v1.MsgExecuteContractResponse"
+      [] m.k = "inst" -> IF m.salt = "" THEN "/cosmwasm.wasm.v1.MsgInstantiateContractResponse"
+                         ELSE "/cosmwasm.wasm.v1.MsgInstantiateContract2Response"
+      [] m.k = "migrate" -> "/cosmwasm.wasm.v1.MsgMigrateContractResponse"
+      [] m.k = "update_admin" -> "/cosmwasm.wasm.v1.MsgUpdateAdminResponse"
+      [] m.k = "clear_admin" -> "/cosmwasm.wasm.v1.MsgClearAdminResponse"
+      [] m.k = "mod" /\ m.slot = "staking" -> "/cosmos.staking.v1beta1.MsgDelegateResponse"
+      [] m.k = "mod" /\ m.slot = "distribution" -> "/cosmos.distribution.v1beta1.MsgSetWithdrawAddressResponse"
+      [] m.k = "mod" /\ m.slot = "gov" -> "/cosmos.gov.v1beta1.MsgVoteResponse"
+      [] OTHER -> "/unknown"
 
 (* ------------------------------------------------------------------------ *)
 (* strings of attribute keys / event types: sequences of chunks             *)
@@ -197,14 +212,14 @@ ExecSub(x, c, sm) ==
        THEN LET x2 == AddLog(r.x, sub) IN
             IF sm.on \in {"success", "always"}
             THEN LET rr == DoReply(x2, c, [id |-> sm.id, payload |-> sm.payload, ok |-> TRUE,
-                                           ev |-> r.ev, data |-> r.data, is |-> TRUE]) IN
+                                           ev |-> r.ev, data |-> r.data, is |-> TRUE, url |-> TypeUrl(sm.msg)]) IN
                  IF rr.ok THEN Ok(rr.x, r.ev \o rr.ev, rr.data) ELSE Err(rr.x)
             ELSE Ok(x2, r.ev, NoData)
        ELSE (* discard the cache: continue from the state before the sub-message *)
             LET x2 == AddLog([Kill(r.x, from) EXCEPT !.st = x.st], sub) IN
             IF sm.on \in {"error", "always"}
             THEN DoReply(x2, c, [id |-> sm.id, payload |-> sm.payload, ok |-> FALSE,
-                                 ev |-> <<>>, data |-> NoData, is |-> TRUE])
+                                 ev |-> <<>>, data |-> NoData, is |-> TRUE, url |-> ""])
             ELSE Err(x2)
 
 (* process_response *)
